@@ -189,6 +189,8 @@ type pathCtx struct {
 	incTags                                              []string
 	curLabel                                             string
 	mapOrder                                             int
+	approx                                               int64
+	top                                                  *frame
 	bsets                                                map[string]*byteSet
 	inexact                                              map[string]bool
 	filterHits                                           int64
@@ -204,7 +206,15 @@ type drawRec struct {
 }
 
 func (px *pathCtx) abort(kind, format string, args ...interface{}) {
-	panic(pathAbort{kind, fmt.Sprintf(format, args...)})
+	msg := fmt.Sprintf(format, args...)
+	if px.top != nil && (kind == "unsupported" || kind == "engine" || kind == "missing-external") {
+		w, st := stackOf(px.top)
+		if len(st) > 6 {
+			st = st[:6]
+		}
+		msg += " @ " + w + " <- " + strings.Join(st, " <- ")
+	}
+	panic(pathAbort{kind, msg})
 }
 
 func (px *pathCtx) newSym(kind, label string, w uint8) *Term {
